@@ -47,6 +47,8 @@ func Main(args []string) int {
 			return checkC17Open()
 		case "C14ctl":
 			return checkC14ctl()
+		case "C18rest":
+			return checkC18Rest()
 		case "C01conc":
 			return checkC01conc()
 		case "C06conc":
@@ -851,6 +853,15 @@ func checkSimple(prop, harness, evName string) int {
 		if tier == "thorough" {
 			levels = append(levels, Bounds{4, 0, 4}, Bounds{5, 0, 5})
 		}
+	case "C18rest":
+		for _, cf := range c18RestConfigs(tier) {
+			cf := cf
+			jobs = append(jobs, Job{Harness: harness, C14Ctl: &cf})
+		}
+		levels = []Bounds{{0, 0, 0}, {1, 0, 1}, {2, 0, 2}}
+		if tier == "thorough" {
+			levels = append(levels, Bounds{3, 0, 3}, Bounds{4, 0, 4})
+		}
 	case "C14ctl":
 		for _, cf := range c14CtlConfigs(tier) {
 			cf := cf
@@ -1095,7 +1106,7 @@ func simpleAssumptions(h string) []string {
 			"a real controller.Controller (package controller under the scheduler) with no replica yet, RF 3, three model nodes with revision counters 5, 10, 20; the backend factory records every start signal (and fails it where the configuration says so); registration threads run concurrently",
 			"after quiescence every replica that was told to start calls Controller.Start, lowest revision counter first; outcome = registration results, the start signals in order, which start was accepted, final membership; reference = every sequential merge of the same registrations; additional oracle: the accepted start comes from the replica with the highest revision counter among those told to start",
 		}
-	case "C14ctl":
+	case "C14ctl", "C18rest":
 		return []string{
 			"the controller harness of C18atom (real controller.Controller, packages controller and controller/rest under the scheduler: Controller.RWMutex, the handlers' fan-out goroutines and wait groups, the monitoring goroutines; real *remote.Remote backends in front of E-B's model replica nodes) behind the real controller/rest router; memberships: 3 RW, 2 RW + 1 WO synced, 2 RW of RF 3",
 			"each execution builds its own cluster inside the scheduler (not explored), then the handlers of the configuration's requests run concurrently; oracle: every handler returns, none panics (a double unlock is a panic of the shimmed mutex), afterwards the controller lock is free, GET /v1/volumes and GET /v1/replicas are answered 200 and the membership invariants of C18 hold",
